@@ -12,8 +12,14 @@ NPROC = 16
 ENV = dict(os.environ, CARGO_NET_OFFLINE='true')
 
 FORBIDDEN = r'\b(Admitted|admit|Axiom|Axioms|Parameter|Parameters|Conjecture|Admit Obligations)\b|Unset Guard|bypass_check|type-in-type|impredicative-set|Unset Universe Checking|Unset Positivity'
+REAL_AXIOMS = ['ClassicalDedekindReals.sig_forall_dec', 'ClassicalDedekindReals.sig_not_dec',
+               'FunctionalExtensionality.functional_extensionality_dep', 'Classical_Prop.classic']
 ALLOWED_AXIOMS = {
-    # per theorem allow-list; default: none ("Closed under the global context")
+    # per theorem allow-list; default: none ("Closed under the global context").
+    # props/C13_f32.v: agreement of the f32 model with Flocq's round-to-nearest-even; Flocq and Reals rest on the standard
+    # library's real-number axioms, named here and in the file
+    **{n: REAL_AXIOMS for n in ['C13_f32_rnd_mag', 'C13_f32_rnd', 'C13_f32_rnd_FLT', 'C13_f32_mul', 'C13_f32_add', 'C13_f32_sub',
+                                'C13_f32_div', 'C13_f32_of_Z', 'C13_f32_of_dec']},
 }
 
 def sh(cmd, timeout=1200, cwd=VERIF, env=None, stdin=None):
